@@ -71,7 +71,12 @@ func init() {
 func init() {
 	run.Register("vest-edge", func(c *run.Ctx) {
 		nb := []int64{1, 2, 7, 30}[c.Job.Index%4]
-		w := chain.NewWorld(chain.Config{NUsers: 6, Probes: true, VestBlocks: nb, EdenClaimed: 1_000_000_000, EnableVestNow: true, VestNowFactor: []int64{1, 2, 1000000007, 90}[c.Job.Index%4], MaxVestings: 4})
+		// every other instance: 18-decimal magnitudes (total x elapsed blocks beyond 2^63)
+		eden := int64(1_000_000_000)
+		if c.Job.Index%2 == 1 {
+			eden = 4_000_000_000_000_000_000
+		}
+		w := chain.NewWorld(chain.Config{NUsers: 6, Probes: true, VestBlocks: nb, EdenClaimed: eden, EnableVestNow: true, VestNowFactor: []int64{1, 2, 1000000007, 90}[c.Job.Index%4], MaxVestings: 4})
 		c.Attach(w)
 		u := w.Users
 		vest := func(a *chain.Actor, x int64) *chain.TxRecord {
@@ -108,6 +113,24 @@ func init() {
 			w.Step(5, cancel(u[0], 600), claim(u[5]))
 			for i := 0; i < 4; i++ {
 				w.Step(5, claim(u[0]), claim(u[5]))
+			}
+		}
+		// large totals followed to the end of a 60-block schedule, claimed at every second block
+		if eden > 1_000_000_000_000 && !w.Dead && w.GovExec("numblocks 60", &commitmenttypes.MsgUpdateVestingInfo{Authority: w.Gov, BaseDenom: "ueden", VestingDenom: "uelys", NumBlocks: 60, VestNowFactor: 3, NumMaxVestings: 6}) {
+			for _, a := range []*chain.Actor{u[1], u[2]} {
+				cm := w.App.CommitmentKeeper.GetCommitments(w.ReadCtx(), a.Addr)
+				have := cm.GetClaimedForDenom("ueden")
+				if have.IsPositive() {
+					w.Step(5, w.Tx(a, &commitmenttypes.MsgVest{Creator: a.S(), Amount: have.QuoRaw(2), Denom: "ueden"}))
+					c.Ev("large_total_vested")
+				}
+			}
+			for i := 0; i < 64 && !w.Dead; i++ {
+				if i%2 == 0 {
+					w.Step(5, claim(u[1]), claim(u[2]))
+				} else {
+					w.Step(5)
+				}
 			}
 		}
 		// the parameters change while entries are running: an entry keeps the schedule it was created
